@@ -209,6 +209,12 @@ def gen_case(r, big=False, natural=False, errs=False):
                 cand.append((4, r.choice("AR"), r.choice(s.dq)[1] if s.dq and r.random() < 0.6
                              else r.randrange(1, 65536)))
             cand.append((1, "P", r.randrange(30000, 34000)))
+            if not errs:
+                # malformed answers with one of our ids: ACK with a code of an invalid class / with a
+                # request code (end the exchange like a Reset), NON with an invalid class (peer's ids)
+                bm = r.choice(infl) if infl and r.random() < 0.8 else \
+                    (r.choice(s.finished) if s.finished else r.randrange(1, 45000))
+                cand.append((5, "B", (bm, r.choice([1, 1, 2, 4]))))
             if s.client and not natural and not errs:
                 cand.append((5 if (s.est and s.act == 0) else 1, "G", 0))
             if not s.client and s.est and not natural and not errs:
@@ -237,6 +243,11 @@ def gen_case(r, big=False, natural=False, errs=False):
             ops.append("%s%d,%d" % (kind, k, arg))
             if not natural or arg in infl:
                 (s.ack if kind == "A" else s.rst)(arg)
+        elif kind == "B":
+            ops.append("B%d,%d,%d" % (k, arg[0], arg[1]))
+            if arg[1] != 4 and s.open and s.remove(arg[0]):     # like a Reset, without the hook
+                s.finished.append(arg[0])
+                s.dec_drain()
         elif kind == "T":
             ops.append("T%d,%d" % (k, arg))
             s.tick(arg)
@@ -329,7 +340,7 @@ def enum_cases(depth, nstart, maxrt, est0, max_sub=3, client=True, hooks=False, 
             tk = 10001 if sametok else 10001 + nsub
             alpha += ["S0,c,%d,%d" % (nsub + 1, tk), "S0,n,%d,%d" % (nsub + 1, tk)]
         for m in range(1, nsub + 1):
-            alpha += ["A0,%d" % m, "R0,%d" % m, "T0,%d" % m]
+            alpha += ["A0,%d" % m, "R0,%d" % m, "T0,%d" % m, "B0,%d,1" % m]
             if not sametok or m == 1:
                 alpha.append("P0,%d" % (10000 + m))
         alpha += ["U0", "F0,1", "F0,4"]
